@@ -18,6 +18,7 @@ from engine import Ob, mkkey, anchor_ob
 import q
 import r_err
 import r_order as ro
+import re
 from names import *
 
 PRIMITIVES = {COPY_FILE_RANGE, PREAD, PWRITE, READ, WRITE}
@@ -440,7 +441,11 @@ def run(fx, cfgname="A", reach=None):
                     continue
                 o, p = q.names(t)
                 if o not in partial and p not in partial:
-                    continue
+                    # a workspace helper that is handed a count-returning closure and answers with a count of the same
+                    # kind (`retry_intr(|| pread(..))`): the closure's obligation continues at the helper's result
+                    fvs = [x for x in (t.get("fn") or {}).get("fnvals", []) if x in partial]
+                    if not (fvs and p in fx.fns and re.search(r"\b(usize|u64|isize|i64)\b", t.get("dest_ty") or "")):
+                        continue
                 # classified on the function's inlined view (own block and local indices kept): a private helper
                 # that checks or forwards the count (`nonzero(n)?`, `written_in_full(w, r)?`) is part of the flow
                 fv = _sview(fx, f)
